@@ -1,6 +1,7 @@
 package codec
 
 import (
+	"bufio"
 	"bytes"
 	"fmt"
 	"io"
@@ -146,7 +147,16 @@ func (e *c01env) check(s *ref.FrameSpec, field string) {
 	wit := func() interface{} { return map[string]interface{}{"cfg": e.cfg.String(), "frame": specJSON(s)} }
 	guard(e.rep, c01key(e.cfg, field, "panic"), wit, func() {
 		e.w.reset()
-		err := e.fw.Write(toFrame(s))
+		tf := toFrame(s)
+		if f2, ok := tf.(*frame.V2Frame); ok && !s.Signed && e.nframes%3 == 0 {
+			// an unsigned frame object that still holds signature fields (flag cleared by a router, FixFrame on a node with
+			// an outgoing key): they are not part of an unsigned frame's layout
+			f2.Signature = &frame.V2Signature{0xFD, 0xFE, 0xFD, 0xFE, 0xFD, 0xFE}
+			f2.SignatureLinkID = 0xFE
+			f2.SignatureTimestamp = 0xFDFDFDFDFDFD
+			e.rep.Count("unsigned_frames_with_leftover_signature_fields", 1)
+		}
+		err := e.fw.Write(tf)
 		if err != nil {
 			e.rep.Violation(c01key(e.cfg, field, "bytes"), "writer refused a well-formed frame: "+err.Error(), wit())
 			return
@@ -159,6 +169,12 @@ func (e *c01env) check(s *ref.FrameSpec, field string) {
 		}
 		e.rep.Count("write_calls", len(e.w.calls))
 		rd := &frame.Reader{ByteReader: bytes.NewReader(got), DialectRW: e.drw}
+		if e.nframes%4 == 2 {
+			// the caller's own buffered reader, of any size (smaller than the frame included)
+			sz := []int{16, 17, 64, 100, 255, 256, 300, 512, 4096}[(e.nframes/4)%9]
+			rd = &frame.Reader{BufByteReader: bufio.NewReaderSize(bytes.NewReader(got), sz), DialectRW: e.drw}
+			e.rep.Count("readbacks_through_caller_bufio", 1)
+		}
 		if err := rd.Initialize(); err != nil {
 			e.rep.HarnessError("reader init: " + err.Error())
 			return
